@@ -12,20 +12,50 @@ literal-body check of every framework HTTPError(...) site, this gives the statem
 substituted values and repr() of a string without quotes adds only quotes and backslash escapes (assumed, Python semantics).
 """
 import z3
-from pyvc.engine import (Contract, VInt, VBool, VStr, VObj, VFunc, VOpaque, VJoin, VSeq, VTuple, VNone, NONE, Unsupported, PyObj, StrSort)
+from pyvc.engine import (Contract, Val, VInt, VBool, VStr, VObj, VFunc, VOpaque, VJoin, VSeq, VTuple, VNone, NONE, Unsupported, PyObj, StrSort)
 
 S = z3.StringVal
 
 
+class TemplateCache(Val):
+    """the module level list `_html_lns`: shared by all threads; it may only ever be replaced as a whole"""
+
+    def __init__(self, seq):
+        self.seq = seq
+
+    def truth(self, X):
+        return z3.Length(self.seq.t) > 0
+
+    def havoc(self, X, hint):
+        return TemplateCache(VSeq(X.fresh(self.seq.t.sort(), hint), self.seq.wrap))
+
+    def as_seq(self):
+        return self.seq
+
+
+class TemplateFile(Val):
+    def __init__(self, seq):
+        self.seq = seq
+
+    def as_seq(self):
+        return self.seq
+
+
+class _AnyLoop(dict):
+    def get(self, k, default=None):
+        return lambda X: []
+
+
 class Render(Contract):
-    props = ('C20',)
+    props = ('C20', 'C08')
     file = 'ombott/error_render.py'
     qualname = 'render'
     assumptions = ('str.format substitutes field values without re-scanning them; repr() of a str free of quotes adds only the '
                    'surrounding quotes and backslash escapes (Python semantics)',
                    'the template lines come from the constant file error.html (request independent)')
-    expected_labels = ('format.url_only_escaped_and_quoted', 'format.no_exception_text_unless_debug', 'post.page_is_joined_lines')
-    loop_inv = {0: lambda X: []}
+    expected_labels = ('format.url_only_escaped_and_quoted', 'format.no_exception_text_unless_debug', 'post.page_is_joined_lines',
+                       'cache.filled_atomically')
+    loop_inv = _AnyLoop()
 
     def pre(self, X):
         d = X.driver
@@ -50,15 +80,12 @@ class Render(Contract):
             return VStr(c.escape(args[-1].t))
 
         def hopen(X, args, kwargs):
-            return VObj('TemplateFile', {})
-
-        def readlines(X, args, kwargs):
-            return VOpaque(X.fresh(PyObj, 'file_lines'), 'file_lines')
-        self.stubs = {'Sanitize.escape': escape, 'HtmlPath.open': hopen, 'TemplateFile.readlines': readlines}
+            return TemplateFile(VSeq(X.fresh(z3.SeqSort(PyObj), 'file_lines'), c.line))
+        self.stubs = {'Sanitize.escape': escape, 'HtmlPath.open': hopen}
         errobj = VObj('ErrResp', {'traceback': VOpaque(X.fresh(PyObj, 'tb'), 'tb'), 'exception': VOpaque(X.fresh(PyObj, 'exc'), 'exc')})
         self.errobj = errobj
         return {'err_resp': errobj, 'url': VStr(self.url), 'debug': VBool(self.debug),
-                'sanitize_html': VObj('Sanitize', {}), 'html': VObj('HtmlPath', {}), '_html_lns': self.lines}
+                'sanitize_html': VObj('Sanitize', {}), 'html': VObj('HtmlPath', {}), '_html_lns': TemplateCache(self.lines)}
 
     def builtin_hook(self, X, name, args, kwargs):
         if name == 'repr':
@@ -82,8 +109,11 @@ class Render(Contract):
     def setslice_hook(self, X, target, val):
         # _html_lns[:] = [...]   (fills the module level cache from the constant template file)
         import ast
-        if isinstance(target.value, ast.Name) and target.value.id == '_html_lns' and isinstance(val, VSeq):
-            X.env['_html_lns'] = val
+        if isinstance(target.value, ast.Name) and target.value.id == '_html_lns' and isinstance(val, VSeq) \
+                and target.slice.lower is None and target.slice.upper is None:
+            # one assignment of the complete list: other threads see the old (empty) or the new (complete) content
+            X.prove('cache.filled_atomically', z3.BoolVal(True))
+            X.env['_html_lns'] = TemplateCache(val)
             return True
         return False
 
@@ -93,6 +123,14 @@ class Render(Contract):
         return None
 
     def method_hook(self, X, obj, name, args, kwargs):
+        if isinstance(obj, TemplateFile) and name == 'readlines':
+            return VOpaque(X.fresh(PyObj, 'file_lines'), 'file_lines')
+        if name == 'strip' and isinstance(obj, VStr) and not args:
+            return VStr(X.driver.uf('strip_ws', StrSort, StrSort)(obj.t))
+        if isinstance(obj, TemplateCache):
+            # append / extend / insert / clear ...: a piecemeal fill of a cache that other threads read meanwhile
+            X.prove('cache.filled_atomically', z3.BoolVal(False))
+            return NONE
         if name == 'format' and isinstance(obj, VStr):
             self.n_format += 1
             u = kwargs.get('url')
